@@ -294,6 +294,8 @@ class G:
             s = one_or_seq(ids)
             return g.vis("rep_min< %s >" % tmplargs(n), g.add("SEQ", kids=[s] * n + [g.add("STAR", kids=(s,))]))
         if k in ("rep_max", "rep_min_max"):
+            # the expansion ends in not_at< R... > over the same sub-rule: "equivalent" is only defined for side-effect-free R
+            g.features |= GF_PRED_DUP
             a, b = (0, nums[0]) if k == "rep_max" else nums
             s = one_or_seq(ids)
             kids = [s] * a + [g.add("OPT", kids=(s,))] * (b - a) + [g.add("NOTAT", kids=(s,))]
